@@ -631,6 +631,9 @@ class Context:
                         # so remove the process from the application
                         application.remove_process(process.process_name)
                         application_impacted = True
+                    else:
+                        # the synthetic process status may have changed, so re-evaluate the application status
+                        application.update()
                 # an update of numprocs cannot leave the application empty (update_numprocs 0 not allowed)
                 # however, a remove_group can induce this situation
                 if not application.processes:
